@@ -73,10 +73,16 @@ type setOp struct {
 	arr   []*model.Entry
 	tv    *gpb.TypedValue
 	descr string
+	// ghost: an update whose path runs through the (existing) target and then names a node the schema does
+	// not have; only generated together with the IgnoreExtraFields option, under which it has no effect
+	ghost bool
 }
 
 // applyOp applies one operation to the model (reference semantics).
 func applyOp(m *model.Node, op *setOp) {
+	if op.ghost {
+		return
+	}
 	tg := op.tg
 	if op.kind == "delete" || op.kind == "replace" {
 		if tg.F == nil {
@@ -110,6 +116,23 @@ func applyOp(m *model.Node, op *setOp) {
 	}
 }
 
+// elemsPrefix: path a is an ancestor of (or equal to) path b; an element of a without keys (a whole list)
+// covers every entry.
+func elemsPrefix(a, b []model.PElem) bool {
+	if len(a) > len(b) {
+		return false
+	}
+	for i := range a {
+		if a[i].Name != b[i].Name {
+			return false
+		}
+		if a[i].Keys != nil && model.ElemsID(a[i:i+1]) != model.ElemsID(b[i:i+1]) {
+			return false
+		}
+	}
+	return true
+}
+
 func reqText(r *gpb.SetRequest) string {
 	return th.Trunc(prototext.MarshalOptions{Multiline: true}.Format(r), 4000)
 }
@@ -122,6 +145,7 @@ func TestC13(t *testing.T) {
 		"non-trivial = a request mixes a replace and an update on overlapping subtrees, or replaces a list entry; distinct by variant+tree+requests")
 	rec.Assume("presence-container bits are not compared (C12 owns pruning); key leaves are not deleted on their own; a JSON payload for a list-entry target repeats the path keys or omits them; a JSON update does not mention an ordered-by-user list that is already populated (documented: ordered lists are unmarshalled as a whole) nor unkeyed lists")
 	th.WitnessAll(rec)
+	witnessF97(rec)
 	rapid.Check(t, func(rt *rapid.T) {
 		v := th.PickVariant(rt, th.AllVariants...)
 		o := model.GenOpts{Sparse: rapid.Bool().Draw(rt, "sparse"), NoUnkeyed: true}
@@ -153,6 +177,34 @@ func TestC13(t *testing.T) {
 			if len(ops) == 0 {
 				continue
 			}
+			// one request in four is applied with IgnoreExtraFields and carries one or two updates that name a
+			// node the schema does not have below an existing container or list entry: they change nothing
+			var sopts []ytypes.UnmarshalOpt
+			if !atomic && rapid.IntRange(0, 3).Draw(rt, "ignoreextra") == 0 {
+				sopts = append(sopts, &ytypes.IgnoreExtraFields{})
+				cl = append(cl, "opt:ignore-extra-fields")
+				for g := rapid.IntRange(1, 2).Draw(rt, "ghosts"); g > 0; g-- {
+					tg := model.PickTarget(rt, v, before, model.TargetOpts{NoKeyLeaf: true, AllowOrdered: true, Gen: o})
+					if tg == nil || tg.F == nil || !tg.Exists || !(tg.F.Kind == model.FCont || tg.AtEntry) {
+						continue
+					}
+					// the node must still exist when the updates run (after this request's deletes and replaces)
+					gone := false
+					for _, op := range ops {
+						if op.kind != "update" && (op.tg.F == nil || elemsPrefix(op.tg.Elems, tg.Elems) || elemsPrefix(tg.Elems, op.tg.Elems)) {
+							gone = true
+						}
+					}
+					if gone {
+						continue
+					}
+					gop := &setOp{kind: "update", tg: tg, ghost: true, tv: &gpb.TypedValue{Value: &gpb.TypedValue_StringVal{StringVal: "ignored"}}}
+					gop.descr = "update (unknown node below) " + model.PathString(model.PathProto(tg.Elems))
+					pos := rapid.IntRange(0, len(ops)).Draw(rt, "ghostpos")
+					ops = append(ops[:pos], append([]*setOp{gop}, ops[pos:]...)...)
+					cl = append(cl, "op:update-unknown-node")
+				}
+			}
 			req, prefixLen := buildRequest(rt, v, atomic, ops)
 			if atomic {
 				// reference: the subtree at the prefix is replaced
@@ -183,7 +235,7 @@ func TestC13(t *testing.T) {
 				err = ytypes.UnmarshalNotifications(sch, []*gpb.Notification{n})
 			} else {
 				text = reqText(req)
-				err = ytypes.UnmarshalSetRequest(sch, req)
+				err = ytypes.UnmarshalSetRequest(sch, req, sopts...)
 			}
 			var kinds []string
 			for _, op := range ops {
@@ -466,8 +518,19 @@ func buildRequest(rt *rapid.T, v *model.Variant, atomic bool, ops []*setOp) (*gp
 	if k > 0 || rapid.Bool().Draw(rt, "emptyprefix") {
 		req.Prefix = model.PathProto(common[:k])
 	}
+	if req.Prefix != nil && rapid.Bool().Draw(rt, "prefixcap") {
+		// a prefix as a decoder or an append-built path leaves it: element slice with spare capacity, which a
+		// join that appends in place would hand to every joined path
+		req.Prefix.Elem = append(make([]*gpb.PathElem, 0, len(req.Prefix.Elem)+4), req.Prefix.Elem...)
+	}
 	for _, op := range ops {
 		p := model.PathProto(op.tg.Elems[k:])
+		if op.ghost {
+			p.Elem = append(p.Elem, &gpb.PathElem{Name: "zz-not-in-schema"})
+			if rapid.Bool().Draw(rt, "ghostdeep") {
+				p.Elem = append(p.Elem, &gpb.PathElem{Name: "leaf"})
+			}
+		}
 		switch op.kind {
 		case "delete":
 			req.Delete = append(req.Delete, p)
